@@ -8,6 +8,11 @@ package scen
 // world in deterministic (setup) mode so that the engine's own actors stay under control.
 
 import (
+	"google.golang.org/protobuf/reflect/protodesc"
+	"google.golang.org/protobuf/reflect/protoreflect"
+	"google.golang.org/protobuf/reflect/protoregistry"
+	"google.golang.org/protobuf/types/descriptorpb"
+	"google.golang.org/protobuf/types/dynamicpb"
 	"fmt"
 	"math"
 	"sort"
@@ -63,7 +68,44 @@ func wireSender(i int) *actor.PID {
 }
 
 var wireSenderNames = []string{"nil", "S1", "S2", "S1'", "(ab,c)", "(a,bc)"}
-var wirePayloadNames = []string{"TestMessage{a}", "TestMessage{b}", "TestMessage{}", "PID{x,y}", "Ping{from}", "PID{invalid utf-8}", "non-proto value"}
+var wirePayloadNames = []string{"TestMessage{a}", "TestMessage{b}", "TestMessage{}", "PID{x,y}", "Ping{from}", "PID{invalid utf-8}", "non-proto value", "dyn.Invoice{ACME,5}", "dyn.Order{bolt,5}"}
+
+// Two message types that exist only as descriptors (loaded at run time, as a gateway or a schema registry
+// would): both are *dynamicpb.Message in Go, the protobuf type is what tells them apart.
+var dynInvoice, dynOrder protoreflect.MessageType
+
+func init() {
+	str, i64, opt := descriptorpb.FieldDescriptorProto_TYPE_STRING.Enum(), descriptorpb.FieldDescriptorProto_TYPE_INT64.Enum(), descriptorpb.FieldDescriptorProto_LABEL_OPTIONAL.Enum()
+	fld := func(name string, n int32, t *descriptorpb.FieldDescriptorProto_Type) *descriptorpb.FieldDescriptorProto {
+		return &descriptorpb.FieldDescriptorProto{Name: proto.String(name), Number: proto.Int32(n), Type: t, Label: opt}
+	}
+	fd := &descriptorpb.FileDescriptorProto{Name: proto.String("verifdyn.proto"), Package: proto.String("verifdyn"), Syntax: proto.String("proto3"),
+		MessageType: []*descriptorpb.DescriptorProto{
+			{Name: proto.String("Invoice"), Field: []*descriptorpb.FieldDescriptorProto{fld("customer", 1, str), fld("cents", 2, i64)}},
+			{Name: proto.String("Order"), Field: []*descriptorpb.FieldDescriptorProto{fld("item", 1, str), fld("qty", 2, i64)}},
+		}}
+	f, err := protodesc.NewFile(fd, protoregistry.GlobalFiles)
+	if err != nil {
+		panic(err)
+	}
+	if err := protoregistry.GlobalFiles.RegisterFile(f); err != nil {
+		panic(err)
+	}
+	dynInvoice = dynamicpb.NewMessageType(f.Messages().ByName("Invoice"))
+	dynOrder = dynamicpb.NewMessageType(f.Messages().ByName("Order"))
+	for _, mt := range []protoreflect.MessageType{dynInvoice, dynOrder} {
+		if err := protoregistry.GlobalTypes.RegisterMessage(mt); err != nil {
+			panic(err)
+		}
+	}
+}
+
+func dynMsg(mt protoreflect.MessageType, s string, n int64) proto.Message {
+	m := mt.New()
+	m.Set(mt.Descriptor().Fields().ByNumber(1), protoreflect.ValueOfString(s))
+	m.Set(mt.Descriptor().Fields().ByNumber(2), protoreflect.ValueOfInt64(n))
+	return m.Interface()
+}
 
 func wirePayload(i int) (any, bool) {
 	switch i {
@@ -79,6 +121,10 @@ func wirePayload(i int) (any, bool) {
 		return &actor.Ping{From: &actor.PID{Address: "p", ID: "q"}}, true
 	case 5:
 		return &actor.PID{Address: "\xff\xfe", ID: "bad"}, false // proto.Marshal: invalid UTF-8
+	case 7:
+		return dynMsg(dynInvoice, "ACME", 5), true
+	case 8:
+		return dynMsg(dynOrder, "bolt", 5), true
 	}
 	return nonProto{7}, false
 }
@@ -105,6 +151,7 @@ func (wp wirePools) msg(i int) wireMsg {
 var wireFull = wirePools{[]int{0, 1, 2}, []int{0, 1, 2, 3, 4, 5}, []int{0, 1, 2, 3, 4, 5, 6}}
 var wireReduced = wirePools{[]int{0, 1}, []int{0, 1, 2, 4, 5}, []int{0, 1, 3, 5, 6}}
 var wireTiny = wirePools{[]int{0, 1}, []int{0, 1, 2}, []int{0, 3, 5}}
+var wireDyn = wirePools{[]int{0, 1}, []int{0, 1}, []int{0, 7, 8}}
 
 // wireFixture is a receiving engine with recording Processers under every target id.
 type wireFixture struct {
@@ -978,6 +1025,13 @@ func init() {
 	Register(&Job{Name: "C15/wire/len4-tiny", Prop: "C15", Kind: "direct", Budget: 50, BudgetT: 300,
 		Desc: "all batches of length 4 over 2 targets x 3 senders x 3 payloads (104976 batches)",
 		Run: wireRun(func(we *wireEnum, tier string) { we.wireBatches(wireTiny, 4, 0, 1) })})
+	Register(&Job{Name: "C15/wire/dynamic-types", Prop: "C15", Kind: "direct", Budget: 50, BudgetT: 300,
+		Desc: "all batches of length 1-3 over 2 targets x 2 senders x {TestMessage, two message types that exist only as descriptors (dynamicpb: one Go type, two protobuf types)}: each arrives as the type it was sent as",
+		Run: wireRun(func(we *wireEnum, tier string) {
+			we.wireBatches(wireDyn, 1, 0, 1)
+			we.wireBatches(wireDyn, 2, 0, 1)
+			we.wireBatches(wireDyn, 3, 0, 1)
+		})})
 	for sh := 0; sh < 14; sh++ {
 		sh := sh
 		Register(&Job{Name: fmt.Sprintf("C15/wire/len3-full-shard%02d", sh), Prop: "C15", Kind: "direct", Tier: "thorough", Budget: 50, BudgetT: 900,
